@@ -114,6 +114,7 @@ def run(ctx):
     specs = sl.element_specs()
     scens = []
     used_b = {}
+    layout_seen = set()
     try:
         for spec in specs:
             anames_all = [n for n, _ in spec.A]
@@ -153,9 +154,16 @@ def run(ctx):
                         d = next((i for i in range(min(len(obs), len(exp))) if obs[i] != exp[i]), min(len(obs), len(exp)))
                         outs = [e for e in trace if e["ev"] == "out"]
                         w = outs[d]["w"] if d < len(outs) else "end"
-                        ctx.violation("%s:layout:%s" % (spec.name, w),
-                                      {"element": spec.name, "pattern": list(pat), "selected": anames,
-                                       "unselected": bnames, "fan": sc.fan, "expected": exp, "observed": obs})
+                        kind = "%s-where-%s" % (obs[d][0] if d < len(obs) else "nothing",
+                                                exp[d][0] if d < len(exp) else "nothing")
+                        # one report per element and kind of mismatch (patterns come smallest first)
+                        if (spec.name, kind) not in layout_seen:
+                            layout_seen.add((spec.name, kind))
+                            ctx.violation("%s:layout:%s:%s" % (spec.name, kind, w),
+                                          {"element": spec.name, "pattern": list(pat), "selected": anames,
+                                           "unselected": bnames, "fan": sc.fan, "expected": exp, "observed": obs,
+                                           "legend": "u = the i-th unselected value itself, m = that object with "
+                                                     "changed content, s = i-th reference result (0: none)"})
             missing = set(bnames_all) - used_b.get(spec.name, set())
             if missing:
                 raise core.MachineryError("unselected samples never used for %s: %s" % (spec.name, sorted(missing)))
